@@ -14,6 +14,8 @@ NAME_POOL = [
     "A", "B", "C", "D", "E", "lib", "m1", "Std", "core", "util", "mathx", "geo", "noise", "K9", "zeta", "omega",
     "Alpha", "beta", "q", "mod_a", "mod_b", "x1", "x2", "shade", "light", "bsdf", "tex", "ray", "cam", "post",
     "pre", "mid", "hi", "lo", "left", "right", "up", "down", "n0", "n1", "n2", "n3", "P", "Q", "R", "S_", "T",
+    # names that are prefixes / case variants / digit variants of each other
+    "a", "std", "libm", "lib2", "lib_", "Lib", "core2", "m", "m10", "m2", "tex2d", "Ray", "x", "x10",
 ]
 
 TEMPLATES = ["expr", "expr", "loop", "branch", "glob", "struct", "array", "helper", "while", "vec", "local"]
@@ -181,7 +183,10 @@ def gen_scenario(seed, tier="quick"):
     # generations: per generation a constant offset per function
     gens = []
     for gno in range(sw["generations"]):
-        gens.append({"dk": [0 if gno == 0 else prng.randint(1, 50) for _ in funcs]})
+        # from the second generation on, the module names may be rotated among the
+        # modules: the same file names then hold other modules (stale by-name caches)
+        gens.append({"dk": [0 if gno == 0 else prng.randint(1, 50) for _ in funcs],
+                     "rot": 0 if gno == 0 or prng.random() < 0.5 else prng.randint(1, max(1, nm - 1))})
     # schedule
     steps = []
     importers = {m: [x for x in range(nm) if m in modules[x]["imports"]] for m in range(nm)}
@@ -431,6 +436,19 @@ def single_src(sc, gen=0, variants=None):
     for i, f in enumerate(sc["funcs"]):
         out.append(func_src(sc, i, dk[i], variants.get(f["mod"], 0)))
     return "".join(out)
+
+
+def view(sc, gen):
+    """The scenario as generation `gen` sees it (module names rotated)."""
+    rot = sc["gens"][gen].get("rot", 0) if gen < len(sc["gens"]) else 0
+    if not rot:
+        return sc
+    v = dict(sc)
+    names = [m["name"] for m in sc["modules"]]
+    sufs = [m.get("suffix") for m in sc["modules"]]
+    n = len(names)
+    v["modules"] = [dict(m, name=names[(i + rot) % n], suffix=sufs[(i + rot) % n]) for i, m in enumerate(sc["modules"])]
+    return v
 
 
 def well_formed(sc):
